@@ -376,7 +376,8 @@ def gen_case(rng, desc, direction, max_ops=6):
                         "sel": rng.randrange(40)})
             if desc["linkdata"]:
                 npairs += 1
-    return {"pair": desc["name"], "variant": desc["variant"], "dir": direction, "ops": ops, "lazy": rng.random() < 0.5}
+    return {"pair": desc["name"], "variant": desc["variant"], "dir": direction, "ops": ops, "lazy": rng.random() < 0.5,
+            "repair": rng.choice(["no", "cached", "uncached"])}
 
 
 def witness(desc):
@@ -717,6 +718,54 @@ class Run:
             snap, stored = self.snapshot()
             for i in self.linked_pairs(snap):
                 self.check_ids(i, snap, stored, "final")
+        try:
+            self.do_repair()
+        except Exception as e:  # noqa: BLE001
+            self.fail(f"linking side A to a new partner raised {type(e).__name__}: {str(e)[:100]}", "repair-raises")
+
+    def do_repair(self):
+        """Epilogue, oracle only (a third entity is outside the two-entity model): side A of the first pair is linked, from
+        its own side, to a NEW partner of side B's class.  The new pair must record both identifiers on both entities, live
+        and in the file, and each must resolve the other after re-opening."""
+        d = self.desc
+        if self.case.get("repair", "no") == "no" or d["kind"] != "em" or d["geom"] not in ("line", "single") or not self.pairs:
+            return
+        p = self.pairs[0]
+        if p["ws"] != "main":
+            return
+        a, b_old = p["ents"]["A"], p["ents"]["B"]
+        da = md_dict(d, a)
+        if da is None or da.get(d["keyB"]) != b_old.uid:
+            return                                   # not linked (the history never linked this pair)
+        if self.case["repair"] == "cached":
+            _ = partner_of(d, a, "A")                # the partner has been read once: it is cached on the entity
+        w = self.ws("main")
+        b2 = type(b_old).create(w, vertices=np.asarray(b_old.vertices).copy(), name="side_b2")
+        setattr(a, d["attrB"], b2)
+        self.ctx.count("op:repair:" + self.case["repair"])
+        ua, ub = a.uid, b2.uid
+
+        def ids(ent):
+            m = md_dict(d, ent)
+            return (None, None) if m is None else (m.get(d["keyA"]), m.get(d["keyB"]))
+        for lab, ent in (("side A", a), ("the new partner", b2)):
+            if ids(ent) != (ua, ub):
+                self.fail(f"after linking side A to a new partner, {lab} records {ids(ent)} instead of both identifiers", "repair-ids-live")
+        self.close_all()
+        w = self.ws("main")
+        a2, b2r = w.get_entity(ua)[0], w.get_entity(ub)[0]
+        for lab, ent in (("side A", a2), ("the new partner", b2r)):
+            if ent is None or ids(ent) != (ua, ub):
+                self.fail(f"after linking side A to a new partner and re-opening, {lab} records {None if ent is None else ids(ent)}", "repair-ids-stored")
+        if a2 is not None and b2r is not None:
+            pa, pb = partner_of(d, a2, "A"), partner_of(d, b2r, "B")
+            if getattr(pa, "uid", None) != ub or getattr(pb, "uid", None) != ua:
+                self.fail(f"after re-pairing and re-opening the partners resolve to {getattr(pa, 'uid', pa)} / {getattr(pb, 'uid', pb)}", "repair-unresolved")
+        # keep the runner's handles valid for the final checks
+        for q in self.pairs:
+            if q["ws"] == "main":
+                for s_ in "AB":
+                    q["ents"][s_] = w.get_entity(q[s_])[0]
 
     def model_line(self, wt):
         return {"m": "pair", "op": "run", "wt": wt, "carry": self.desc["kind"] == "em", "keys": sorted(self.keys),
